@@ -16,7 +16,8 @@ pub const IDENTS: u8 = 5;
 #[derive(Clone, Debug, Serialize, Deserialize, Hash)]
 pub enum Op {
     /// open a connection in `slot`; `reuse_of`: bind the port last used by that slot (its connection is reset first)
-    Open { slot: u8, reuse_of: Option<u8>, record: Option<u8> },
+    /// `dead`: the record names a destination nobody listens on, so the proxy's own connect to the host fails at accept time
+    Open { slot: u8, reuse_of: Option<u8>, record: Option<u8>, #[serde(default)] dead: bool },
     Request { slot: u8, only: u8 },
     /// the kernel writes a new record for the slot's port while its connection is still open
     Overwrite { slot: u8, ident: u8 },
@@ -31,7 +32,7 @@ pub struct Case {
 
 fn op() -> impl Strategy<Value = Op> {
     prop_oneof![
-        4 => (0u8..4, prop::option::weighted(0.55, 0u8..4), prop::option::weighted(0.6, 0u8..IDENTS)).prop_map(|(slot, reuse_of, record)| Op::Open { slot, reuse_of, record }),
+        4 => (0u8..4, prop::option::weighted(0.55, 0u8..4), prop::option::weighted(0.6, 0u8..IDENTS), prop::bool::weighted(0.15)).prop_map(|(slot, reuse_of, record, dead)| Op::Open { slot, reuse_of, record, dead }),
         6 => (0u8..4, 0u8..IDENTS).prop_map(|(slot, only)| Op::Request { slot, only }),
         2 => (0u8..4, 0u8..IDENTS).prop_map(|(slot, ident)| Op::Overwrite { slot, ident }),
         2 => (0u8..4).prop_map(|slot| Op::Close { slot }),
@@ -43,7 +44,7 @@ pub fn strategy() -> impl Strategy<Value = Case> {
     prop::collection::vec(op(), 1..24).prop_map(|ops| Case { ops })
 }
 
-pub const RULE: &str = "generator: histories (1-23 ops) over 4 connection slots and 5 identities: Open{fresh port | the port last used by a slot (that connection is reset with SO_LINGER 0 first and the new socket binds the same port), with a record for identity k or without}, Request{slot, /only/<j>}, Overwrite{slot's port gets a new record while its connection is open}, Close, Batch{2-8 connections opened concurrently from threads, each with its own identity}. Identities differ in uid (generated passwd), process (helper executables) and elevation; the IMDS rule set (enforce, default deny) grants /only/<k> to identity k only, so every decision identifies whose claims were used, and the forwarded claims header gives the elevation bit. oracle: model port -> pending record; at accept the record moves to the connection and leaves the map (trace shows lookup then remove; the stand-in map has no entry for the port afterwards); every request on a connection is decided with that connection's identity regardless of later overwrites; a connection from a reused port without a fresh record gets 421 on every request. non-trivial: history with a port reuse without a fresh record after an attributed connection, or >= 2 requests on one connection with an overwrite in between, or a batch >= 4; distinct by hash of the history.";
+pub const RULE: &str = "generator: histories (1-23 ops) over 4 connection slots and 5 identities: Open{fresh port | the port last used by a slot (that connection is reset with SO_LINGER 0 first and the new socket binds the same port), in 15% of the attributed opens the record names an unreachable destination so that the proxy's own connect to the host fails at accept time, with a record for identity k or without}, Request{slot, /only/<j>}, Overwrite{slot's port gets a new record while its connection is open}, Close, Batch{2-8 connections opened concurrently from threads, each with its own identity}. Identities differ in uid (generated passwd), process (helper executables) and elevation; the IMDS rule set (enforce, default deny) grants /only/<k> to identity k only, so every decision identifies whose claims were used, and the forwarded claims header gives the elevation bit. oracle: model port -> pending record; at accept the record moves to the connection and leaves the map (trace shows lookup then remove; the stand-in map has no entry for the port afterwards); every request on a connection is decided with that connection's identity regardless of later overwrites; a connection from a reused port without a fresh record gets 421 on every request. non-trivial: history with a port reuse without a fresh record after an attributed connection, or >= 2 requests on one connection with an overwrite in between, or a batch >= 4; distinct by hash of the history.";
 
 pub fn ident_rec(k: u8) -> Rec {
     Rec { uid_sel: k % IDENTS, helper_sel: k % IDENTS, is_root: k % IDENTS == 0, dest: DestSel::Imds }
@@ -65,12 +66,26 @@ pub fn rules(rig: &Rig) -> GDoc {
 }
 
 struct Slot {
+    /// the record's destination is unreachable: requests are answered with an error status, nothing is relayed
+    dead: bool,
     conn: Option<Conn>,
     port: u16,
     identity: Option<u8>,
     had_attributed_before: bool,
     requests_since_open: u32,
     overwritten_since_open: bool,
+}
+
+fn request_on_dead(rig: &Rig, conn: &mut Conn, only: u8) -> Result<(), (String, String)> {
+    let _ = rig.mock.take_requests();
+    let target = format!("/only/{}", only % IDENTS);
+    let wire = crate::rawhttp::request_head("GET", &target, &[("Host".into(), b"10.99.0.2".to_vec())]);
+    conn.send(&wire).map_err(|e| ("attribution:client-send-failed".to_string(), e.to_string()))?;
+    let resp = conn.read("GET", Duration::from_secs(20)).map_err(|e| ("attribution:no-response".to_string(), format!("{} on port {}: {:?}", target, conn.port, e)))?;
+    if (200..300).contains(&resp.status) || !rig.mock.take_requests().is_empty() {
+        return Err(("attribution:request-to-unreachable-destination-relayed".into(), format!("status {} for {} on port {}", resp.status, target, conn.port)));
+    }
+    Ok(())
 }
 
 fn request_on(rig: &Rig, conn: &mut Conn, identity: Option<u8>, only: u8) -> Result<(), (String, String)> {
@@ -112,13 +127,13 @@ pub fn eval(rig: &Rig, case: &Case, stats: &mut Stats) -> Outcome {
     rig.set_rules(None, Some(&doc), None);
     rig.set_key(None);
     verif_hooks::clear();
-    let mut slots: Vec<Slot> = (0..4).map(|_| Slot { conn: None, port: 0, identity: None, had_attributed_before: false, requests_since_open: 0, overwritten_since_open: false }).collect();
+    let mut slots: Vec<Slot> = (0..4).map(|_| Slot { dead: false, conn: None, port: 0, identity: None, had_attributed_before: false, requests_since_open: 0, overwritten_since_open: false }).collect();
     // model of the kernel map: port -> identity of the pending record
     let mut pending: BTreeMap<u16, u8> = BTreeMap::new();
     let mut nontrivial = false;
     for (step, op) in case.ops.iter().enumerate() {
         match op {
-            Op::Open { slot, reuse_of, record } => {
+            Op::Open { slot, reuse_of, record, dead } => {
                 let s = *slot as usize % 4;
                 if let Some(c) = slots[s].conn.take() {
                     crate::rawhttp::close_abortive(c.stream);
@@ -162,8 +177,14 @@ pub fn eval(rig: &Rig, case: &Case, stats: &mut Stats) -> Outcome {
                         return Outcome::fail("rig:cannot-bind", e);
                     }
                 };
+                let dead = *dead && record.is_some();
                 if let Some(k) = record {
-                    verif_hooks::insert(bound, rig.entry_of(&ident_rec(*k)));
+                    let mut rec = ident_rec(*k);
+                    if dead {
+                        rec.dest = crate::rig::DestSel::Dead;
+                        stats.class("open:record-with-unreachable-destination");
+                    }
+                    verif_hooks::insert(bound, rig.entry_of(&rec));
                     pending.insert(bound, *k % IDENTS);
                 }
                 let conn = match crate::rawhttp::connect_fd(fd, [127, 0, 0, 1], 3080) {
@@ -183,10 +204,11 @@ pub fn eval(rig: &Rig, case: &Case, stats: &mut Stats) -> Outcome {
                     stats.class("open:reused-port-without-fresh-record-after-attributed-connection");
                     nontrivial = true;
                 }
-                slots[s] = Slot { conn: Some(conn), port: p, identity, had_attributed_before: identity.is_some(), requests_since_open: 0, overwritten_since_open: false };
+                slots[s] = Slot { dead, conn: Some(conn), port: p, identity, had_attributed_before: identity.is_some(), requests_since_open: 0, overwritten_since_open: false };
                 // first request: also proves that accept processing is over
                 let probe = identity.unwrap_or(0);
-                if let Err((sig, d)) = request_on(rig, slots[s].conn.as_mut().unwrap(), identity, probe) {
+                let r = if dead { request_on_dead(rig, slots[s].conn.as_mut().unwrap(), probe) } else { request_on(rig, slots[s].conn.as_mut().unwrap(), identity, probe) };
+                if let Err((sig, d)) = r {
                     return Outcome::fail(sig, format!("step {} {:?}: {}", step, op, d));
                 }
                 slots[s].requests_since_open += 1;
@@ -203,8 +225,10 @@ pub fn eval(rig: &Rig, case: &Case, stats: &mut Stats) -> Outcome {
             Op::Request { slot, only } => {
                 let s = *slot as usize % 4;
                 let identity = slots[s].identity;
+                let dead = slots[s].dead;
                 if let Some(conn) = slots[s].conn.as_mut() {
-                    if let Err((sig, d)) = request_on(rig, conn, identity, *only) {
+                    let r = if dead { request_on_dead(rig, conn, *only) } else { request_on(rig, conn, identity, *only) };
+                    if let Err((sig, d)) = r {
                         return Outcome::fail(sig, format!("step {} {:?}: {}", step, op, d));
                     }
                     slots[s].requests_since_open += 1;
